@@ -1,8 +1,105 @@
-import ErdosVerif.Driver.Util
-namespace ErdosVerif.Driver.Queue
-open Lean ErdosVerif.Driver
+/-
+Driver for suite "queue" (M2, property C16).
 
-/-- Suite handler: one JSON case in, one JSON reply out (stub until the suite is built). -/
-def handle (_j : Json) : Json := Json.mkObj [("protocol_error", Json.str "suite-not-built")]
+Case: {"suite":"queue",
+       "events":[{"time":int(µs),"etype":nat,"task":str|null}, …]      -- eid = position
+       "ops":[{"op":"add","e":eid} | {"op":"remove","e":eid} | {"op":"next"} | {"op":"peek"}
+              | {"op":"next_of_type","t":nat} | {"op":"retime","e":eid,"t":int}
+              | {"op":"reheapify"} | {"op":"retime_reheapify","e":eid,"t":int}
+              | {"op":"len"} | {"op":"sorted","es":[eid…]} | {"op":"lt","e":eid,"f":eid}
+              | {"op":"task_types"}]}
+Reply: {"steps":[{"out":…,"q":[eid…]}, …]}: the outcome of every operation and the
+internal list (identities, in list order) after it. Events are mutable objects: `retime`
+changes the object whether or not it is queued.
+-/
+import ErdosVerif.Driver.Util
+import ErdosVerif.Model.Event
+namespace ErdosVerif.Driver.Queue
+open Lean ErdosVerif.Driver ErdosVerif.Model
+
+structure St where
+  evs : Array Event
+  q : EventQueue
+
+def getEvent (i : Nat) (j : Json) : Except String Event := do
+  let t ← fldInt j "time"
+  let ty ← fldNat j "etype"
+  let task ← match fldOpt j "task" with
+    | none => pure none
+    | some v => do pure (some (← v.getStr?))
+  return ⟨i, t, ty, task⟩
+
+def getEvents : Nat → List Json → Except String (List Event)
+  | _, [] => .ok []
+  | i, j :: js => do
+    let e ← getEvent i j
+    let es ← getEvents (i + 1) js
+    return e :: es
+
+def lookup (s : St) (i : Nat) : Except String Event :=
+  match s.evs[i]? with
+  | some e => .ok e
+  | none => .error s!"bad eid {i}"
+
+def jOptEid : Option Event → Json
+  | none => Json.null
+  | some e => jNat e.eid
+
+def step (s : St) (j : Json) : Except String (St × Json) := do
+  let op ← fldStr j "op"
+  match op with
+  | "add" =>
+    let e ← lookup s (← fldNat j "e")
+    return ({ s with q := s.q.addEvent e }, Json.null)
+  | "remove" =>
+    let e ← lookup s (← fldNat j "e")
+    match s.q.removeEvent e.eid with
+    | .ok q => return ({ s with q := q }, Json.null)
+    | .error c => return (s, errJ c)
+  | "next" =>
+    match s.q.next with
+    | .ok (e, q) => return ({ s with q := q }, jNat e.eid)
+    | .error c => return (s, errJ c)
+  | "peek" => return (s, jOptEid s.q.peek)
+  | "next_of_type" => return (s, jOptEid (s.q.nextOfType (← fldNat j "t")))
+  | "retime" =>
+    let e ← lookup s (← fldNat j "e")
+    let t ← fldInt j "t"
+    return ({ evs := s.evs.set! e.eid { e with time := t }, q := s.q.retime e.eid t }, Json.null)
+  | "reheapify" => return ({ s with q := s.q.reheapify }, Json.null)
+  | "retime_reheapify" =>
+    let e ← lookup s (← fldNat j "e")
+    let t ← fldInt j "t"
+    return ({ evs := s.evs.set! e.eid { e with time := t }, q := s.q.retimeReheapify e.eid t }, Json.null)
+  | "len" => return (s, jNat s.q.size)
+  | "task_types" =>
+    -- values of the event types the model treats as task-carrying (ties `taskEventTypeNames`
+    -- and the generated enum table to the constructor checks of the real `Event`)
+    return (s, jList jNat ((taskEventTypeNames.filterMap eventTypeValue?).toArray.qsort (· < ·)).toList)
+  | "sorted" =>
+    let ids ← fldArr j "es"
+    let es ← mapM' (fun v => do lookup s (← v.getNat?)) ids
+    return (s, jList (fun e => jNat e.eid) (EventQueue.sorted es))
+  | "lt" =>
+    let e ← lookup s (← fldNat j "e")
+    let f ← lookup s (← fldNat j "f")
+    return (s, Json.bool (Event.lt e f))
+  | o => throw s!"unknown op {o}"
+
+def runOps : St → List Json → Except String (List Json)
+  | _, [] => .ok []
+  | s, j :: js => do
+    let (s', out) ← step s j
+    let rest ← runOps s' js
+    return Json.mkObj [("out", out), ("q", jList (fun e => jNat e.eid) s'.q.toList)] :: rest
+
+def handleE (j : Json) : Except String Json := do
+  let evs ← getEvents 0 (← fldArr j "events")
+  let ops ← fldArr j "ops"
+  let steps ← runOps ⟨evs.toArray, EventQueue.empty⟩ ops
+  return Json.mkObj [("steps", Json.arr steps.toArray)]
+
+/-- Suite handler: one JSON case in, one JSON reply out. -/
+def handle (j : Json) : Json := guardE (handleE j)
 
 end ErdosVerif.Driver.Queue
